@@ -189,6 +189,10 @@ class SimProcess:
         self.busy_until = 0.0
         self.drain_code = EX_RECYCLE
         self.late_readies = 0
+        # the pool builds the process object before it lists the worker
+        hook = getattr(sim, 'create_hook', None)
+        if hook is not None:
+            hook(self)
 
     # -- process API used by Pool ------------------------------------------
     @property
@@ -312,7 +316,14 @@ def _mk_handlers():
             self._was_started = True
 
         def stop(self, timeout=None):
-            pass
+            # joining the supervisor from another thread while it is inside a
+            # supervision pass (operation closerace) waits for that pass to end
+            gate = getattr(CURRENT[0], 'supervisor_gate', None)
+            if gate is not None and \
+                    threading.current_thread() is not gate['owner']:
+                gate['blocked'].set()
+                if not gate['done'].wait(60):
+                    raise SimHarnessError('supervision pass never ended')
 
     class SimTaskHandler(bp.TaskHandler):
         def start(self, *a, **kw):
@@ -1254,11 +1265,14 @@ class Sim:
         self.closed = True
         self.labels.add('close')
 
-    def op_closerace(self):
-        """close() called by the user while the supervisor is inside start() of a
-        replacement worker: close() queues the feeder's sentinel before it waits
-        for the supervisor, so the feeder counts the workers to send exit
-        sentinels to (TaskHandler.tell_others) at that very moment."""
+    def op_closerace(self, where='start'):
+        """close() called by the user while the supervisor is replacing a worker
+        - inside start() of the replacement (listed, being forked), or
+        where='create': while its process object is being built (the dead worker
+        already removed from the list, the replacement not yet in it).  The
+        feeder counts the workers to send exit sentinels to
+        (TaskHandler.tell_others) when it gets its own sentinel; a feeder that
+        gets it at that very moment must still end every worker."""
         pool = self.pool
         if self.closed or not self.config.get('threads', True) or not (
                 pool._worker_handler._state == bp.RUN and pool._state == bp.RUN):
@@ -1277,22 +1291,57 @@ class Sim:
         if not dead:
             return 'noop'
         fired = []
+        gate = {'owner': threading.current_thread(),
+                'blocked': threading.Event(), 'done': threading.Event(),
+                'finished': threading.Event(), 'exc': None, 'thread': None}
+
+        def user():
+            try:
+                pool.close()
+            except BaseException as exc:    # re-raised in the harness thread
+                gate['exc'] = exc
+            finally:
+                gate['finished'].set()
 
         def hook(proc):
             if fired:
                 return
             fired.append(proc.pid)
             self.unfinished_at_close = self.unresolved_count()
-            pool.close()
+            # the user's close() runs in a thread of its own: where it joins
+            # the supervisor it has to wait until this pass is over.  The
+            # feeder meanwhile works off whatever close() has queued so far
+            self.supervisor_gate = gate
+            gate['thread'] = t = threading.Thread(target=user, daemon=True)
+            t.start()
+            for _ in range(200000):
+                if gate['blocked'].is_set() or gate['finished'].is_set():
+                    break
+                _real_time.sleep(0.0002)
+            else:
+                raise SimHarnessError('close() neither returned nor waited')
             self.closed = True
             self.drain_taskqueue()
             self.labels.add('close')
-            self.labels.add('close_during_worker_start')
-        self.start_hook = hook
+            self.labels.add('close_during_worker_start' if where == 'start'
+                            else 'close_during_worker_create')
+        if where == 'start':
+            self.start_hook = hook
+        else:
+            self.create_hook = hook
         try:
             res = self.op_tick()
         finally:
             self.start_hook = None
+            self.create_hook = None
+            gate['done'].set()
+            if gate['thread'] is not None:
+                gate['thread'].join(60)
+            self.supervisor_gate = None
+        if gate['exc'] is not None:
+            raise gate['exc']
+        if fired:
+            self.drain_taskqueue()
         if not fired:
             # nothing was started after all: an ordinary close
             return self.op_close()
